@@ -51,6 +51,10 @@ def _model_values(world, model):
     return {k: model_value(model, v) for k, v in world.leaves.items()}
 
 
+SECOND_SX_PER_CONFIG = int(os.environ.get('VERIF_SECOND_SX', '3'))      # thorough tier: 12 (run_property)
+SECOND_SX_MS = int(os.environ.get('VERIF_SECOND_SX_MS', '1500'))
+
+
 def _well_conditioned(values, tables):
     """Can a model be replayed faithfully with IEEE floats?  No if its magnitudes span more than nine decades or two distinct
     numbers differ by less than 1e-5 relative (a branch or table lookup then goes the other way under rounding): such a
@@ -154,6 +158,17 @@ def sym_task(task):
                     quick_ce = {}
             rest = [cond for i, cond in enumerate(conds) if i not in quick_ce]
             verdict, model = c.prove(z3.And(*rest), prove_timeout if out['unknown_budget'] > 0 else 2000) if rest else ('unsat', None)
+            if verdict == 'unsat' and rest and SECOND_SX_PER_CONFIG > stats.get('second_asked', 0):
+                # second back end on a sample: the first discharged path VCs of every configuration go to cvc5 as well
+                from .vcg import second as _second
+                if os.path.exists(_second.CVC5):
+                    stats['second_asked'] = stats.get('second_asked', 0) + 1
+                    ans, dt = _second.cvc5_check(list(c.solver.assertions()) + [z3.Not(z3.And(*rest))], SECOND_SX_MS)
+                    key = 'second_' + {'unsat': 'confirmed', 'sat': 'disagreed'}.get(ans, 'no_answer')
+                    stats[key] = stats.get(key, 0) + 1
+                    stats['second_s'] = stats.get('second_s', 0.0) + dt
+                    if ans == 'sat':
+                        verdict = 'unknown'; out['undecided'].append('z3 unsat / cvc5 sat on the path VC')
             if verdict != 'unsat' or quick_ce:
                 for i, ((n, _, info), cond) in enumerate(zip(obs, conds)):
                     if i in quick_ce: v, m = 'sat', quick_ce[i]
@@ -306,6 +321,8 @@ def load_baseline():
 
 def run_property(prop, tier='quick', jobs=None, seed=0, only=None, write_baseline=False, extra=None):
     t0 = time.time()
+    global SECOND_SX_PER_CONFIG
+    if tier == 'thorough' and 'VERIF_SECOND_SX' not in os.environ: SECOND_SX_PER_CONFIG = 12
     jobs = jobs or min(16, os.cpu_count() or 4)
     evdir = os.environ.get('VERIF_EVIDENCE_DIR') or os.path.join(VERIF, 'evidence')
     if (only or os.environ.get('VERIF_ONLY_CONFIG')) and not os.environ.get('VERIF_EVIDENCE_DIR'):
@@ -575,6 +592,11 @@ def run_property(prop, tier='quick', jobs=None, seed=0, only=None, write_baselin
         'vcs_discharged': sum(r['vcs'] for r in results),
         'configs': len(results), 'paths': sum(r['paths'] for r in results),
         'paths_cross_checked': cross_checked, 'cross_checks_skipped_rounding': cross_skipped,
+        'second_back_end_sample': {'solver': 'cvc5 1.0.3 on the SMT-LIB text of pc AND NOT(clauses) for the first %d z3-discharged path VC(s) of every configuration, %d ms each' % (SECOND_SX_PER_CONFIG, SECOND_SX_MS),
+                                   'confirmed_unsat': sum(r['stats'].get('second_confirmed', 0) for r in results),
+                                   'no_answer_in_budget': sum(r['stats'].get('second_no_answer', 0) for r in results),
+                                   'disagreed': sum(r['stats'].get('second_disagreed', 0) for r in results),
+                                   'solver_time_s': round(sum(r['stats'].get('second_s', 0) for r in results), 2)},
         'cross_models_reconditioned': sum(r['stats'].get('cross_models_reconditioned', 0) for r in results),
         'cross_models_ill_conditioned': sum(r['stats'].get('cross_models_ill_conditioned', 0) for r in results),
         'canaries': canary_total, 'canaries_refuted': canary_refuted,
